@@ -57,6 +57,7 @@ def flat_loop(extra=()):
 
 
 def add(U):
+    U.generators.append(auto_contracts)
     U.append('parser.rs', '''
 impl<T: TokenStream> ParserBase<T> {
     /// loop-invariant shape inside a grammar function that has opened its node
@@ -86,8 +87,10 @@ pub open spec fn is_type_first(k: TokenKind) -> bool {
             e.append(LT)
         if lt_if:
             e.append(C('%s ==> final(p).fuel() < old(p).fuel()' % lt_if, 'C02', name='consumes when ' + lt_if))
-        U.fn(FILES[mod], name, requires=r, ensures=e, decreases='old(p).fuel(), %dnat' % RANK[key],
-             loops=loops or {}, closures=closures or {}, prologue=prologue, body_proofs=body_proofs or [])
+        fc = U.fn(FILES[mod], name, requires=r, ensures=e, decreases='old(p).fuel(), %dnat' % (RANK[key] * 1000),
+                  loops=loops or {}, closures=closures or {}, prologue=prologue, body_proofs=body_proofs or [])
+        if name != 'delimited':
+            fc.uniform_loops = True
 
     # closure contract used with delimited(): may only be called with less fuel than the enclosing function had
     def clos():
@@ -213,3 +216,77 @@ pub open spec fn is_type_first(k: TokenKind) -> bool {
     g(T, 'list_type', strict='List')
     g(T, 'class_id', lt_if='old(p).cur() == %s' % KW('Id'))
     g(T, 'code_type', strict='Code')
+
+
+# ---------------------------------------------------------------------------------------------------------------------
+# Robustness: a grammar function that has no entry above (a helper introduced by a refactoring) gets the standard weak
+# contract, standard loop invariants and a rank placed between its same-fuel callers and callees, computed from the call
+# graph of the source at hand.  Without this a new helper inside the recursion would make Verus reject the whole unit.
+import re as _re
+
+
+def stmt_loop_clause(sp, f, lp, spec):
+    """C20: a loop that parses statements (its body calls statement(p)) may only stop in front of a token that cannot start one"""
+    body = sp.src[f][lp['body'][0]:lp['body'][1]].decode()
+    if _re.search(r'(?<![a-z_])statement\(p\)', body):
+        spec['after_loop'] = spec.get('after_loop', []) + [('!crate::grammar::statement::is_stmt_start(p.cur())', 'C20',
+                                                             'a statement loop stops only in front of a token that cannot start a statement')]
+
+
+def auto_contracts(sp):
+    U = sp.u
+    from splice import FnContract
+    mods = {'grammar.rs': '', 'grammar/statement.rs': 'statement', 'grammar/value.rs': 'value', 'grammar/type.rs': 'r#type'}
+    fns = {}
+    for f, mod in mods.items():
+        if f not in sp.anch:
+            continue
+        data = sp.src[f]
+        for r in sp.anch[f]:
+            if r['rec'] == 'fn' and not r['cfg_test'] and r['body']:
+                fns[(mod, r['name'])] = (f, r, data[r['body'][0]:r['body'][1]].decode())
+    names = {}
+    for (m, n) in fns:
+        names.setdefault(n, []).append(m)
+
+    def calls(m, body):
+        out = []
+        for mm in _re.finditer(r'(?:(statement|value|r#type)::)?\b(r#[a-z_]+|[a-z_]+)\b\s*(\(|[,)])', body):
+            q, nm, _ = mm.groups()
+            if nm not in names or body[:mm.start()].rstrip().endswith('.'):
+                continue
+            tm = q if q else (m if m in names[nm] else names[nm][0])
+            out.append((tm, nm))
+        return out
+
+    def rank_of(k):
+        key = (k[0] + '::' if k[0] else '') + k[1]
+        return RANK[key] * 1000 if key in RANK else None
+
+    # known grammar functions: the uniform loop invariant goes on every loop the function has NOW (robust against a loop
+    # being added, removed or moved into a helper); functions with a hand-written invariant (delimited) keep it
+    for k, (f, r, body) in fns.items():
+        fc = U.fns.get((f, r['path']))
+        if fc is None or getattr(fc, 'uniform_loops', None) is None:
+            continue
+        fc.loops = {}
+        for i, lp in enumerate(r['loops']):
+            before = sp.src[f][r['body'][0]:lp['span'][0]].decode()
+            fc.loops[i] = node_loop() if 'p.start_node(' in before else flat_loop()
+            stmt_loop_clause(sp, f, lp, fc.loops[i])
+    new = [k for k, (f, r, b) in fns.items() if (f, r['path']) not in U.fns and any(p.get('name') == 'p' and p.get('mut_ref') for p in r['params'])]
+    for k in new:
+        f, r, body = fns[k]
+        lo = max([rank_of(c) for c in calls(k[0], body) if rank_of(c) is not None] + [0])
+        his = [rank_of(c) for c, (cf, cr, cb) in fns.items() if k in calls(c[0], cb) and rank_of(c) is not None]
+        hi = min([h for h in his if h > lo] + [lo + 1000])
+        rank = (lo + hi) // 2
+        loops = {}
+        for i, lp in enumerate(r['loops']):
+            before = sp.src[f][r['body'][0]:lp['span'][0]].decode()
+            loops[i] = node_loop() if 'p.start_node(' in before else flat_loop()
+            stmt_loop_clause(sp, f, lp, loops[i])
+        fc = FnContract(f, r['path'], requires=list(REQ), ensures=list(ENS), decreases='old(p).fuel(), %dnat' % rank, loops=loops)
+        fc.auto = True
+        U.fns[(f, r['path'])] = fc
+        sp.g.auto_contracted = getattr(sp.g, 'auto_contracted', []) + ['%s:%s (rank %d)' % (f, r['path'], rank)]
